@@ -160,7 +160,8 @@ def ansi_text(cfg):
     body = st.sampled_from(['', '0', '1', '31', '1;31', '22', '39', '4', '24', '38;5;200', '1;38;5;200', '48;2;1;2;3',
                             '0;1', '31;0', '2', '34', '41', '49', '56', '21', '58;5;9', '59', '3;23', '1;2;22;1', '38;5;300', '48;2;0;0;256', '1;38;5;256'])
     tok = weighted((1, texts(0, 3, esc=False, nonascii=cfg.nonascii)), (2, body.map(lambda b: '\x1b[' + b + 'm')))
-    return st.lists(tok, max_size=7).map(''.join)
+    # (one in seven is plain text: parsing it into an object that already holds formatted text must drop the old formatting)
+    return weighted((6, st.lists(tok, max_size=7).map(''.join)), (1, texts(0, 4, esc=False, nonascii=cfg.nonascii)))
 
 
 def text_len(cfg):
